@@ -65,6 +65,22 @@ structure QOk (c : Cache) (n : Nat) : Prop where
   readable : ∀ p, ∀ r ∈ c.queueRows p, drf_Readable (entryOfRow c r)
   quiet : c.cfg.cullLimit = 0 ∨ ∀ p, ∀ r ∈ c.queueRows p, r.expT = none
 
+/-- `QOk` without `quiet`: the invariant of the regime where the lazy cull may remove expired
+queue rows (`cull_limit > 0` with expiry times on pushed items), DC/Properties/C10_LooseRefine.lean -/
+structure QOkL (c : Cache) (n : Nat) : Prop where
+  good : Good c
+  pol : c.cfg.policy = .none
+  page : 0 < c.cfg.page
+  qok : ∀ p, QueueOk c p
+  room : ∀ p, ∀ r ∈ c.queueRows p, ∀ k, queueNum r.key = some k →
+    1 + (n : Int) ≤ k ∧ k + (n : Int) ≤ 999999999999998
+  origin : OriginOk c
+  originN : n ≤ c.cfg.qorigin ∧ c.cfg.qorigin + n ≤ 999999999999999
+  readable : ∀ p, ∀ r ∈ c.queueRows p, drf_Readable (entryOfRow c r)
+
+theorem QOk.toL {c : Cache} {n : Nat} (h : QOk c n) : QOkL c n :=
+  ⟨h.good, h.pol, h.page, h.qok, h.room, h.origin, h.originN, h.readable⟩
+
 theorem holdsKey_iff (c : Cache) (k : Spec.Key) (d : Option Spec.Entry) (clock : Int) :
     HoldsKey c k d clock ↔ rf_VRel (rf_view c k) d clock := by
   have hv : rf_view c k = (c.selKey k.1 k.2).map (entryOfRow c) := rfl
